@@ -44,6 +44,17 @@ MAX_WITNESSES = 10
 
 
 def cells(tier):
+    """the thorough tier is the deeper cells plus every cell of the quick
+    tier (special situations are written once, for the quick tier)"""
+    out = _cells(tier)
+    if tier != 'quick':
+        for c in _cells('quick'):
+            if c not in out:
+                out.append(c)
+    return out
+
+
+def _cells(tier):
     out = []
     backends = ['dict', 'disk', 'redis', 'cloud']
     allk = ['none', 'reply', 'transient', 'permanent', 'other', 'oserror',
